@@ -216,3 +216,27 @@ CLAIMS["C12"] = {
 H("C12", "html/layout", "VxH_C12_breaks", mode="real", reach=["laid-out", "blank-page-inserted"], bounds="3 sibling blocks with heights in [10,90] on 100x100 pages without margins; break-after of the first and break-before of the second in {auto,page,left,right,avoid}", quick={"maxsteps": 50000000, "time": "500s", "shards": 4})
 H("C12", "html/layout", "VxH_C12_pagebox", mode="real", reach=["laid-out"], bounds="@page size W x H in [100,1000]^2, margins auto or in [0,20], width auto or in [10,50], padding in [0,10] (symbolic)", quick={"maxsteps": 50000000})
 H("C12", "html/tree", "VxH_C03_page", reach=["nth-match", "nth-no-match"], bounds="@page selector matching, see C03")
+
+# ---- C09 box tree (grid slots only) / C13 ----
+ASSUMPTIONS["C09"] = [
+    "only the table grid-slot assignment of the box tree is covered (real pipeline: NewHTML, GetAllComputedStyles, BuildFormattingStructure) with symbolic colspan / rowspan attribute digits; anonymous-box fix-up, inline/block splitting and blockification are pointer-rich tree rewriting without scalar unknowns and are not covered",
+]
+CLAIMS["C09"] = {
+    "text": "For a table of 2 (thorough 3) rows x 2 cells whose colspan and rowspan attributes are symbolic digits (0..3, or absent) the solver shows every cell gets the grid slot of the HTML table model: increasing within a row, first slot never occupied by a row-spanning cell from above, rowspan clipped to the row group with 0 meaning to its end, colspan at least 1.",
+    "design_ref": "DESIGN.md section 4 C09",
+    "note": "Trusted: symgo, z3. Only wrapTable/integerAttribute/NewTableCellBox are decided; the rest of the box-generation rules is outside this technique's reach here.",
+}
+H("C09", "html/boxes", "VxH_C09_grid", reach=["built"], bounds="table of 2 (thorough 3) rows x 2 cells; colspan and (except in the last row) rowspan absent or a symbolic digit 0..3", quick={"maxsteps": 50000000, "time": "500s", "shards": 8}, thorough={"maxsteps": 50000000, "time": "2400s", "shards": 12, "maxpaths": 4000000})
+H("C13", "html/boxes", "VxH_C09_grid", reach=["built"], bounds="table grid slots, see C09", quick={"maxsteps": 50000000, "time": "500s", "shards": 8}, thorough={"maxsteps": 50000000, "time": "2400s", "shards": 12, "maxpaths": 4000000})
+
+# ---- C13 tables ----
+ASSUMPTIONS["C13"] = [
+    "real mode; a 2-column, 2-row text-free table laid out by the real pipeline with symbolic table width, cell widths / heights and border-spacing; fixed and auto layout, ltr and rtl; separate borders model",
+    "collapsed borders, captions, column groups, row groups beyond one, percentages and page breaks inside tables are outside the claim",
+]
+CLAIMS["C13"] = {
+    "text": "The solver shows, for all symbolic sizes within the bounds, that cells of a column share left/right edges, a spanning cell covers its columns plus the spacing between them (mirrored in rtl), columns and spacing fill the used table width which is at least the specified width, cells of a row share top edge and height, no size is negative; and (C09 grid harness) that grid slots are assigned as the HTML table model prescribes.",
+    "design_ref": "DESIGN.md section 4 C13",
+    "note": "Trusted: symgo, z3 nlsat.",
+}
+H("C13", "html/layout", "VxH_C13_columns", mode="real", reach=["laid-out"], bounds="table width in [50,300], cell widths in [0,200], heights in [5,40], spacing in [0,10] (symbolic); fixed/auto layout; ltr/rtl", quick={"maxsteps": 80000000, "time": "500s"})
